@@ -549,13 +549,90 @@ type C07Case struct {
 	Flags  []int   `json:"flags"`
 	// synthetic stream instead of a parser
 	Syn *DCase `json:"syn,omitempty"`
+	// Huge: decoder window (0 = default) for the huge-window stream
+	Huge   int  `json:"huge,omitempty"`
+	IsHuge bool `json:"ishuge,omitempty"`
+}
+
+// zeroWriter checks that only zero bytes arrive and counts them.
+type zeroWriter struct {
+	n    int64
+	bad  int64
+	call int
+}
+
+func (z *zeroWriter) Write(p []byte) (int, error) {
+	z.call++
+	for _, c := range p {
+		if c != 0 {
+			z.bad++
+		}
+	}
+	z.n += int64(len(p))
+	return len(p), nil
+}
+
+// runHuge streams zero runs through a Decoder with a huge window and the
+// default buffer: one literal, then matches of 3/4 window, of exactly the
+// window size and small ones.
+func runHuge(c *core.Case, w int, st *core.Stats) []core.Violation {
+	zw := &zeroWriter{}
+	cfg := lz.DecoderConfig{WindowSize: w}
+	d, err := lz.NewDecoder(zw, cfg)
+	if err != nil {
+		return []core.Violation{core.V(c, "decoder-config-rejected", "NewDecoder(%+v): %v", cfg, err)}
+	}
+	ew := w
+	if ew == 0 {
+		ew = 8 << 20
+	}
+	var total int64
+	var viol []core.Violation
+	pv := call(func() {
+		if err := d.WriteByte(0); err != nil {
+			viol = append(viol, core.V(c, "refused-valid", "WriteByte: %v", err))
+			return
+		}
+		total = 1
+		for i, ml := range []int{ew * 3 / 4, ew, 5, ew - 1, ew/2 + 1, ew} {
+			blk := lz.Block{Sequences: []lz.Seq{{LitLen: 0, MatchLen: uint32(ml), Offset: 1}}}
+			if i%2 == 1 {
+				blk.Sequences[0].LitLen = 1
+				blk.Sequences[0].MatchLen--
+				blk.Literals = []byte{0}
+			}
+			n, k, l, err := d.WriteBlock(blk)
+			if err != nil || k != 1 || int(n) != ml || l != len(blk.Literals) {
+				viol = append(viol, core.V(c, "refused-valid-matchlen", "Decoder{WindowSize:%d, default buffer}.WriteBlock of one sequence of %d bytes (<= WindowSize) returned n=%d k=%d l=%d err=%v", ew, ml, n, k, l, err))
+				return
+			}
+			total += int64(ml)
+		}
+		if err := d.Flush(); err != nil {
+			viol = append(viol, core.V(c, "flush-failed", "Flush: %v", err))
+		}
+	})
+	if pv != nil {
+		return []core.Violation{core.V(c, "panic", "huge window stream: %v", pv)}
+	}
+	if viol != nil {
+		return viol
+	}
+	if zw.n != total || zw.bad != 0 {
+		return []core.Violation{core.V(c, "output-differs", "Decoder{WindowSize:%d}: writer received %d bytes (%d non-zero), want %d zero bytes", ew, zw.n, zw.bad, total)}
+	}
+	st.Inc("huge_window_streams")
+	st.Add("huge_window_bytes", total)
+	st.NonTrivial(c)
+	return nil
 }
 
 type c07prop struct{ base }
 
 func (p *c07prop) Plan(tier string, seed int64) []core.Segment {
 	m := tierScale(tier, 40)
-	segs := []core.Segment{{Kind: "corpus:synthetic", N: 600}, {Kind: "synthetic", N: 9000 * m}, {Kind: "known-finding-reproducer", N: 1}}
+	segs := []core.Segment{{Kind: "corpus:synthetic", N: 600}, {Kind: "synthetic", N: 9000 * m}, {Kind: "known-finding-reproducer", N: 1},
+		{Kind: "huge-window", N: 4, Chunk: 1}}
 	for _, t := range gen.ParserTypes {
 		segs = append(segs, core.Segment{Kind: "corpus:parser:" + t, N: 100}, core.Segment{Kind: "parser:" + t, N: 1900 * m})
 		if tier == "thorough" {
@@ -578,6 +655,10 @@ func (p *c07prop) Gen(kind string, idx int64, seed int64, tier string) core.Case
 
 func (p *c07prop) gen(r *rand.Rand, kind string, idx int64) C07Case {
 	switch {
+	case kind == "huge-window":
+		// windows of 8 MiB (the default) and beyond with the default buffer:
+		// sequences up to WindowSize bytes long must be accepted
+		return C07Case{IsHuge: true, Huge: []int{0, 16 << 20, 9 << 20, 8<<20 + 1}[idx%4]}
 	case kind == "known-finding-reproducer":
 		// the directed reproducer of the recorded finding: HP, WindowSize 16,
 		// BlockSize 2048 on a run of 3000 bytes emits {1,2047,1}
@@ -627,6 +708,9 @@ func (p *c07prop) Run(c *core.Case, st *core.Stats) []core.Violation {
 	cc, err := decode[C07Case](c)
 	if err != nil {
 		return []core.Violation{core.V(c, "harness", "bad case: %v", err)}
+	}
+	if cc.IsHuge {
+		return runHuge(c, cc.Huge, st)
 	}
 	if cc.Syn != nil {
 		before := snapshot(st, "valid_blocks")
@@ -712,6 +796,12 @@ func (p *c07prop) Run(c *core.Case, st *core.Stats) []core.Violation {
 		w := &planWriter{}
 		d, derr := lz.NewDecoder(w, lz.DecoderConfig{WindowSize: W, BufferSize: B})
 		if derr != nil {
+			if B != 0 {
+				// "any accepted BufferSize": explicit sizes the library
+				// rejects (beyond MaxUint32) are outside the quantifier
+				st.Inc("explicit_buffersize_not_accepted")
+				continue
+			}
 			viols = append(viols, core.V(c, "decoder-config-rejected", "NewDecoder(W=%d,B=%d): %v", W, B, derr))
 			break
 		}
